@@ -627,7 +627,11 @@ def check_headers_semantic(ctx):
                         if len(src) == 1 and (not cols or cols[-1] != src[0]):
                             cols.append(src[0])
         cols = [c for k_, c in enumerate(cols) if c not in cols[:k_]]          # first appearance of each parameter among the values of a row
-        if isinstance(r, Unk) or header is None or sorted(names) != ['alpha', 'p1', 'zeta'] or sorted(cols) != ['alpha', 'p1', 'zeta'] or any(isinstance(w, Unk) for w, c_ in h.sink.writes):
+        clean_ = not (isinstance(r, Unk) or I.lost or any(isinstance(w, Unk) for w, c_ in h.sink.writes))
+        if clean_ and header is not None and sorted(names) == ['alpha', 'p1', 'zeta'] and set(cols) < {'alpha', 'p1', 'zeta'}:
+            # every write was followed: a parameter announced in the header has no value on the rows
+            ctx.violation('PERM-8', inst, where(fi), 'the header line lists the parameters as %s but a row only shows values of %s: the additional parameters handed in are not attached' % (names, cols), 'header-values-missing')
+        elif isinstance(r, Unk) or header is None or sorted(names) != ['alpha', 'p1', 'zeta'] or sorted(cols) != ['alpha', 'p1', 'zeta'] or any(isinstance(w, Unk) for w, c_ in h.sink.writes):
             ctx.undecided('PERM-8', inst, where(fi), 'listing with two additional parameters not modelled (header %s, value columns %s, result %r)' % (names, cols, r if isinstance(r, Unk) else None))
         else:
             ctx.expect(names == cols, 'PERM-8', inst, where(fi), 'header order %s == order of the values on a row' % names,
